@@ -68,6 +68,10 @@ pub struct E2eScn {
     pub calls: Vec<RootCall>,
     pub preempt_permille: u32,
     pub subscriber: u8,
+    /// Clock skew (ms) of node k+1 relative to the root node; nodes joined by an in-memory link
+    /// are one process and share a clock (the entry is ignored for them).
+    #[serde(default)]
+    pub skew_ms: Vec<i64>,
 }
 
 impl E2eScn {
@@ -159,7 +163,8 @@ pub fn gen(rng: &mut Rng, focus: EFocus) -> E2eScn {
             leaf,
         });
     }
-    E2eScn { hops, calls, preempt_permille: if subscriber != 0 { 0 } else { *rng.pick(&[0u32, 0, 60, 250]) }, subscriber }
+    let skew_ms = if rng.chance(400) { (0..depth).map(|_| *rng.pick(&[0i64, 250, -250, 5_000, -5_000, 3_600_000])).collect() } else { vec![] };
+    E2eScn { hops, calls, preempt_permille: if subscriber != 0 { 0 } else { *rng.pick(&[0u32, 0, 60, 250]) }, subscriber, skew_ms }
 }
 
 // ------------------------------------------------------------------------------------------
@@ -353,6 +358,15 @@ pub fn run(scn: &E2eScn, tape: Tape) -> RunOutput {
             // build from the leaf backwards
             let leaf_plans: Vec<Vec<HStep>> = scn.calls.iter().map(|c| c.leaf.clone()).collect();
             let mut shared_by_hop: Vec<Option<Rc<ServerShared>>> = vec![None; n];
+            // node_skew[k] = skew of node k (node 0 = root callers)
+            let mut node_skew = vec![0i64; n + 1];
+            for h in 0..n {
+                let in_mem = matches!(scn.hops[h].link, LinkKind::MemUnbounded | LinkKind::MemBounded(_));
+                node_skew[h + 1] = if in_mem { node_skew[h] } else { scn.skew_ms.get(h).copied().unwrap_or(0) };
+            }
+            if node_skew.iter().any(|s| *s != 0) {
+                sim.count("fault.clock_skew");
+            }
             for h in (0..n).rev() {
                 let hop = &scn.hops[h];
                 let node = (h + 1) as u8;
@@ -380,8 +394,8 @@ pub fn run(scn: &E2eScn, tape: Tape) -> RunOutput {
                     run: RunMode::Execute,
                 });
                 servers[h] = match hop.limit {
-                    Some(l) => sim.spawn(&format!("server{node}"), server_task_limited(sim.clone(), node, base.max_concurrent_requests(l), mon, plans, shared.clone())),
-                    None => sim.spawn(&format!("server{node}"), server_task(sim.clone(), node, base, mon, plans, shared.clone())),
+                    Some(l) => sim.spawn_opts(&format!("server{node}"), true, node_skew[h + 1], server_task_limited(sim.clone(), node, base.max_concurrent_requests(l), mon, plans, shared.clone())),
+                    None => sim.spawn_opts(&format!("server{node}"), true, node_skew[h + 1], server_task(sim.clone(), node, base, mon, plans, shared.clone())),
                 };
                 shared_by_hop[h] = Some(shared);
                 // client
@@ -391,7 +405,7 @@ pub fn run(scn: &E2eScn, tape: Tape) -> RunOutput {
                 let client::NewClient { client, dispatch } = client::new(cfg, ctap);
                 let (sim_d, ctap_d) = (sim.clone(), ctap_st.clone());
                 let hnode = h as u8;
-                dispatches[h] = sim.spawn(&format!("dispatch{h}"), async move {
+                dispatches[h] = sim.spawn_opts(&format!("dispatch{h}"), true, node_skew[h], async move {
                     let mut dispatch = Box::pin(dispatch);
                     let res = poll_fn(|cx| {
                         ctap_d.borrow_mut().mon.owner_poll_begin();
